@@ -34,7 +34,47 @@ func jsUnescape(s string) (string, bool) {
 	return string(out), true
 }
 
+// replayC03Calls: script template / JSFuncCall arguments. The real JSFuncCall is rendered as a component (inline
+// call inside a <script> element) and its Call is placed in an on* attribute; the outputs are read back the way the
+// HTML tokenizer reads script data and a double-quoted attribute value.
+func replayC03Calls(r *Run, o *Obligation) *ReplayResult {
+	alpha := []string{"<", "/", ">", "!", "-", "&", "\"", "'", "script", "a", " ", "\\"}
+	ins := enumStrings(alpha, 3)
+	ins = append(ins, "</script>", "</script><script>alert(1)</script>", "<!--<script>", "&quot;", "\" onmouseover=\"x", "é😀\xff", "</SCRIPT >")
+	outs, err := r.evalStringFunc(".", "templ", "\"bytes\"\n\"context\"", `func(s string) string {
+		c := JSFuncCall("handle", s, []string{s}, map[string]any{"k": s})
+		var b bytes.Buffer
+		if err := c.Render(context.Background(), &b); err != nil { panic(err) }
+		return b.String() + "\x00" + c.Call
+	}`, ins)
+	if err != nil {
+		return &ReplayResult{Confirmed: false, Input: "JSFuncCall rendered by the real code", Detail: "REPLAY-NOT-REPRODUCED (replay harness error: " + firstLines(err.Error(), 3) + ")"}
+	}
+	for i, in := range ins {
+		if strings.HasPrefix(outs[i], "PANIC:") {
+			continue
+		}
+		parts := strings.SplitN(outs[i], "\x00", 2)
+		if len(parts) != 2 {
+			continue
+		}
+		el, call := parts[0], parts[1]
+		body, ok := strings.CutPrefix(el, "<script>")
+		body, ok2 := strings.CutSuffix(body, "</script>")
+		if !ok || !ok2 || !reMatch(r.e.langs.Get("NO_SCRIPT_END"), body) {
+			return &ReplayResult{Confirmed: true, Input: "bounded search: " + strconv.Quote(in), Detail: fmt.Sprintf("REPLAY-CONFIRMED templ.JSFuncCall(\"handle\", %s, ...) rendered as a component writes %s: the argument ends the script element or opens an HTML comment inside it", strconv.Quote(in), strconv.Quote(el))}
+		}
+		if !reMatch(r.e.langs.Get("DQ_ATTR_SAFE"), call) {
+			return &ReplayResult{Confirmed: true, Input: "bounded search: " + strconv.Quote(in), Detail: fmt.Sprintf("REPLAY-CONFIRMED templ.JSFuncCall(\"handle\", %s, ...).Call = %s cannot be placed in a double-quoted on* attribute (not in DQ_ATTR_SAFE)", strconv.Quote(in), strconv.Quote(call))}
+		}
+	}
+	return &ReplayResult{Confirmed: false, Input: fmt.Sprintf("bounded search over %d argument strings (HTML/JS-adversarial alphabet, length <= 3, plus known vectors), each as a string, in a slice and in a map", len(ins)), Detail: "REPLAY-NOT-REPRODUCED"}
+}
+
 func replayC03(r *Run, o *Obligation) *ReplayResult {
+	if strings.HasPrefix(o.Name, "templ.") || strings.HasPrefix(o.Name, "lemma:inl_") || strings.HasPrefix(o.Name, "lemma:dq_") {
+		return replayC03Calls(r, o)
+	}
 	langs := []string{"SAFE_IN_SQ", "SAFE_IN_DQ", "SAFE_IN_BACKTICK", "NO_SCRIPT_END"}
 	replayErr := ""
 	check := func(ins []string) (string, string, bool) {
